@@ -106,6 +106,17 @@ CHECKS["C08"] = dict(cat="translation_validation", ref="4 C08 / 11.8", engine="p
    note=EXPR_NOTE + " C08 specific: table keys of ite_dict are concrete (dictionary keys); at most three constants of a case list are symbolic (the "
         "constant-identity wrapper forks on every pair). Known finding C08-bv-identical-vsa (BV.identical compares VSA abstractions) is excluded only when "
         "the True answer provably came from the VSA comparison.")
+CHECKS["C25"] = dict(cat="translation_validation", ref="4 C25 / 11.9", engine="pysym",
+   text="claripy.constraint_to_si / Balancer run on constraints whose constants are symbolic (the VSA min/max/eval/is_true calls and the interval "
+        "arithmetic inside run on the same shadows). Per explored path Z3 decides, for all constants and every assignment that satisfies c (claripy's "
+        "Z3 translation of c), that the sat flag is True and that every returned (expression, bound) pair contains the expression's value (gamma of "
+        "backends.vsa.convert(bound)). 38 left-hand shapes (add, sub, extract, concat, zero/sign extension, and, shift, If, ...) x comparisons on either "
+        "side + 18 compound And/Or/Not/If constraints, variables plain or annotated with concrete strided intervals (symbolic annotations in thorough). "
+        "Width 3 quick; 3,4,6,8 thorough. Counterexamples replayed natively by enumeration with claripy's concrete backend.",
+   technique="symbolic execution of the real Python code on int shadows; Z3 decides 'satisfying assignment => inside every bound' per path",
+   note=VSA_NOTE + " C25 specific: annotation hashing is nominal in this harness (claripy.annotation.hash replaced by a digest of the fields' terms). Known "
+        "findings: C25-addsub-ordered-wrap (whole obligations with a sum/difference under an ordered comparison are attributed to it), "
+        "C25-inherits-vsa-extract-shl (annotated variables under extract/shift inherit C21's unsound transfer functions).")
 NOT_YET = {}
 NA = {
  "C20": "Real OS-thread preemption inside CPython and libz3 cannot be encoded by any engine available here; a stress run would be sampling, i.e. a different technique (DESIGN.md section 5).",
